@@ -88,6 +88,14 @@ def exec_c19(cfg, devs):
         args_dict = None
     elif cfg['args'] == 'lists':
         args_dict = {u: [u + '-x', i] for i, u in enumerate(uris)}
+    elif cfg['args'] == 'reversed':
+        # the dictionary was built in another order than the swarm's URIs
+        args_dict = {u: [u + '-r', i] for i, u in reversed(list(enumerate(uris)))}
+    elif cfg['args'] == 'extra':
+        # a dictionary shared between swarms: it also has entries for Crazyflies that are not in this one
+        args_dict = {'sim://not-in-this-swarm': ['zzz', -1]}
+        args_dict.update({u: [u + '-e', i] for i, u in enumerate(uris)})
+        args_dict['sim://another-one'] = []
     else:
         args_dict = {u: [] if i % 2 else [i] for i, u in enumerate(uris)}
 
@@ -237,7 +245,7 @@ def configs(quick):
         subsets = [c for k in range(n + 1) for c in itertools.combinations(range(n), k)]
         for mode in ('sequential', 'parallel', 'parallel_safe', 'open'):
             for fail in subsets:
-                for args in (('none', 'lists', 'mixed') if mode != 'open' and not fail else ('lists',) if mode != 'open' else ('none',)):
+                for args in (('none', 'lists', 'mixed', 'reversed', 'extra') if mode != 'open' and not fail else ('lists',) if mode != 'open' else ('none',)):
                     out.append({'name': '%s:n%d:fail%s:%s' % (mode, n, ''.join(map(str, fail)) or '-', args),
                                 'n': n, 'mode': mode, 'fail': fail, 'args': args})
         out.append({'name': 'open_twice:n%d' % n, 'n': n, 'mode': 'open_twice', 'fail': (), 'args': 'none'})
